@@ -363,6 +363,25 @@ impl AST {
                                 return;
                             }
                         };
+                        // Every placeholder needs exactly one argument.
+                        let placeholders = parts
+                            .iter()
+                            .filter(|p| matches!(p, TemplatePart::PlaceHolder(_)))
+                            .count();
+                        if placeholders != elems.len() {
+                            let msg = format!(
+                                "Format string has {} placeholders but {} arguments were given",
+                                placeholders,
+                                elems.len()
+                            );
+                            ops.push(Op::Val(Primitive::Str(msg.into())), def.pos.clone());
+                            ops.push(Op::Bang, def.pos);
+                            return;
+                        }
+                        // An empty template still renders as the empty string.
+                        if parts.is_empty() {
+                            parts.push(TemplatePart::Str(Vec::new()));
+                        }
                         // We need to push process these in reverse order for the
                         // vm to process things correctly;
                         elems.reverse();
@@ -403,6 +422,10 @@ impl AST {
                                 return;
                             }
                         };
+                        // An empty template still renders as the empty string.
+                        if parts.is_empty() {
+                            parts.push(TemplatePart::Str(Vec::new()));
+                        }
                         parts.reverse();
                         let mut parts_iter = parts.drain(0..);
                         ops.push(Op::Noop, expr.pos().clone());
